@@ -28,13 +28,14 @@ Local Notation pdivides := (pdivides O).
 Local Notation pnonzero := (pnonzero O).
 
 Variable eval_trans : list F -> list F -> list F -> list F.
+Variable eval_aux_trans : list F -> list F -> list F -> list F -> list F -> list F -> list F.
 
 (* ------------------------------------------------------------------ acceptance *)
 Definition ood_equation (A : AirDesc) (C : Coins) (P : ProofObj) : Prop :=
-  evaluate_constraints O eval_trans A C P = ood_reduce O (air_n A) (c_z C) 0 (p_ood_evals P).
+  evaluate_constraints O eval_trans eval_aux_trans A C P = ood_reduce O (air_n A) (c_z C) 0 (p_ood_evals P).
 
 Theorem verify_accept_implies E A C P :
-  verify_model O eval_trans E A C P = Accept ->
+  verify_model O eval_trans eval_aux_trans E A C P = Accept ->
   e_modulus E = p_modulus P /\
   (exists o, In o (e_acceptable E) /\ zlist_eqb (p_options P) o = true) /\
   ood_equation A C P /\
@@ -59,15 +60,15 @@ Qed.
 
 (* conversely every failed check is named: the verdict is Accept exactly when all checks pass *)
 Theorem verify_accept_iff E A C P :
-  verify_model O eval_trans E A C P = Accept <->
+  verify_model O eval_trans eval_aux_trans E A C P = Accept <->
   (Z.eqb (e_modulus E) (p_modulus P) && existsb (zlist_eqb (p_options P)) (e_acceptable E) &&
-   ood_equation_b O eval_trans A C P && e_fri_commit_ok E && e_pow_ok E && e_trace_auth E && e_cons_auth E &&
+   ood_equation_b O eval_trans eval_aux_trans A C P && e_fri_commit_ok E && e_pow_ok E && e_trace_auth E && e_cons_auth E &&
    e_fri E (deep_evaluations O A C P) = true).
 Proof.
   unfold verify_model.
   destruct (Z.eqb _ _); cbn [negb andb]; [|split; discriminate].
   destruct (existsb _ _); cbn [negb andb]; [|split; discriminate].
-  destruct (ood_equation_b _ _ _ _ _); cbn [negb andb]; [|split; discriminate].
+  destruct (ood_equation_b _ _ _ _ _ _); cbn [negb andb]; [|split; discriminate].
   destruct (e_fri_commit_ok E); cbn [negb andb]; [|split; discriminate].
   destruct (e_pow_ok E); cbn [negb andb]; [|split; discriminate].
   destruct (e_trace_auth E); cbn [negb andb]; [|split; discriminate].
@@ -75,32 +76,112 @@ Proof.
   destruct (e_fri E _); cbn [negb andb]; split; auto; discriminate.
 Qed.
 
-(* the value attached to a query position is the DEEP quotient of the opened row against the OOD frame *)
-Lemma deep_trace_at_spec C P zg row x :
+(* the value attached to a query position is the DEEP quotient of the opened row against the OOD frame.
+   col_terms with a shifted identity index map is the dot product with the coefficients from that offset on
+   (an index beyond the coefficient list reads zero, a dot product stops at the shorter list: the same value) *)
+Definition diffs (row ood : list F) : list F := map (fun vo => fst vo -f snd vo) (combine row ood).
+
+Lemma nth_skipn_shift {A} (l : list A) k i d : nth i (skipn k l) d = nth (k + i) l d.
+Proof.
+  revert l; induction k as [|k IH]; intros l; cbn [skipn plus]; [reflexivity|].
+  destruct l as [|a l]; [now destruct i|]. cbn [nth]. apply IH.
+Qed.
+
+Lemma skipn_S_cons {A} (l : list A) k c r : skipn k l = c :: r -> skipn (S k) l = r.
+Proof.
+  revert l; induction k as [|k IH]; intros l E.
+  - cbn in E. subst. reflexivity.
+  - destruct l as [|a l]; [discriminate|]. cbn [skipn] in E. apply IH in E. exact E.
+Qed.
+
+Lemma dot_nil_r cs : dot O cs [] = zero.
+Proof. now destruct cs. Qed.
+
+Lemma col_terms_ext cc idx idx' i row ood :
+  (forall j, idx (i + j) = idx' (i + j)) -> col_terms O cc idx i row ood = col_terms O cc idx' i row ood.
+Proof.
+  revert i ood; induction row as [|v row IH]; intros i [|o ood] H; cbn [col_terms]; try reflexivity.
+  assert (Hi : idx i = idx' i) by (specialize (H 0); now rewrite Nat.add_0_r in H).
+  rewrite Hi. f_equal. apply IH. intros j. replace (S i + j) with (i + S j) by lia. apply H.
+Qed.
+
+Lemma col_terms_dot cc k i row ood :
+  col_terms O cc (fun j => k + j) i row ood = dot O (skipn (k + i) cc) (diffs row ood).
+Proof.
+  revert i ood; induction row as [|v row IH]; intros i [|o ood]; unfold diffs; cbn [col_terms combine map];
+    try (now rewrite dot_nil_r).
+  rewrite IH. fold (diffs row ood).
+  destruct (skipn (k + i) cc) as [|c r] eqn:E.
+  - assert (Hn : nth (k + i) cc zero = zero).
+    { rewrite <- (Nat.add_0_r (k + i)), <- nth_skipn_shift, E. reflexivity. }
+    rewrite Hn. replace (k + S i) with (S (k + i)) by lia.
+    assert (E2 : skipn (S (k + i)) cc = []).
+    { apply skipn_all2. assert (Hl : length (skipn (k + i) cc) = 0) by now rewrite E.
+      rewrite skipn_length in Hl. lia. }
+    rewrite E2. cbn [dot]. ring.
+  - assert (Hn : nth (k + i) cc zero = c).
+    { rewrite <- (Nat.add_0_r (k + i)), <- nth_skipn_shift, E. reflexivity. }
+    assert (E2 : skipn (k + S i) cc = r).
+    { replace (k + S i) with (S (k + i)) by lia. now apply skipn_S_cons with (c := c). }
+    rewrite Hn, E2. cbn [dot fst snd]. ring.
+Qed.
+
+Lemma col_terms_main_dot cc row ood :
+  col_terms O cc (fun i => i) 0 row ood = dot O cc (diffs row ood).
+Proof.
+  rewrite (col_terms_ext cc (fun i => i) (fun j => 0 + j) 0 row ood) by reflexivity.
+  rewrite col_terms_dot. reflexivity.
+Qed.
+
+(* numerator of the auxiliary columns of one frame row *)
+Definition aux_dot (C : Coins) (w : nat) (ar ood : list F) : F := dot O (skipn w (cc_deep_trace C)) (diffs ar ood).
+
+Lemma deep_trace_at_spec C P zg row arow x :
   x -f c_z C <> zero -> x -f zg <> zero ->
-  deep_trace_at O C P zg row x =
-  fdiv O (dot O (cc_deep_trace C) (map (fun vo => fst vo -f snd vo) (combine row (p_ood_cur P)))) (x -f c_z C) +f
-  fdiv O (dot O (cc_deep_trace C) (map (fun vo => fst vo -f snd vo) (combine row (p_ood_next P)))) (x -f zg).
-Proof. intros H1 H2. unfold deep_trace_at. field. split; assumption. Qed.
+  deep_trace_at O C P zg row arow x =
+  match p_aux P, arow with
+  | Some ax, Some ar =>
+      fdiv O (dot O (cc_deep_trace C) (diffs row (p_ood_cur P)) +f aux_dot C (length row) ar (ax_cur ax)) (x -f c_z C) +f
+      fdiv O (dot O (cc_deep_trace C) (diffs row (p_ood_next P)) +f aux_dot C (length row) ar (ax_next ax)) (x -f zg)
+  | _, _ =>
+      fdiv O (dot O (cc_deep_trace C) (diffs row (p_ood_cur P))) (x -f c_z C) +f
+      fdiv O (dot O (cc_deep_trace C) (diffs row (p_ood_next P))) (x -f zg)
+  end.
+Proof.
+  intros H1 H2. unfold deep_trace_at, deep_trace_at_gen, aux_dot. rewrite !col_terms_main_dot.
+  destruct (p_aux P) as [ax|]; [destruct arow as [ar|]|].
+  - unfold deep_coeff_index_aux.
+    rewrite !(col_terms_dot (cc_deep_trace C) (length row) 0), Nat.add_0_r. field. split; assumption.
+  - field. split; assumption.
+  - field. split; assumption.
+Qed.
 
 Lemma deep_evaluations_length A C P :
   length (p_q_trace P) = length (c_xs C) -> length (p_q_cons P) = length (c_xs C) ->
   length (deep_evaluations O A C P) = length (c_xs C).
-Proof. intros H1 H2. unfold deep_evaluations. rewrite map_length, !combine_length. lia. Qed.
+Proof. intros H1 H2. unfold deep_evaluations. rewrite map_length, !combine_length, seq_length. lia. Qed.
+
+Lemma nth_error_combine {X Y} (a : list X) (b : list Y) q u v :
+  nth_error a q = Some u -> nth_error b q = Some v -> nth_error (combine a b) q = Some (u, v).
+Proof.
+  revert b q; induction a as [|u0 a IH]; intros b q0 Ha Hb; destruct q0; destruct b; cbn in *; try discriminate.
+  - now inversion Ha; inversion Hb.
+  - now apply IH.
+Qed.
 
 Lemma deep_evaluations_nth A C P q rt rc x :
   nth_error (p_q_trace P) q = Some rt -> nth_error (p_q_cons P) q = Some rc -> nth_error (c_xs C) q = Some x ->
   nth_error (deep_evaluations O A C P) q =
-  Some (deep_trace_at O C P (c_z C *f air_g A) rt x +f deep_cons_at O C P rc x).
+  Some (deep_trace_at O C P (c_z C *f air_g A) rt (aux_row_at P q) x +f deep_cons_at O C P rc x).
 Proof.
   unfold deep_evaluations. intros H1 H2 H3.
   rewrite nth_error_map.
-  assert (Hc : forall {X Y} (a : list X) (b : list Y) q u v, nth_error a q = Some u -> nth_error b q = Some v ->
-               nth_error (combine a b) q = Some (u, v)).
-  { intros X Y a. induction a as [|u0 a IH]; intros b q0 u v Ha Hb; destruct q0; destruct b; cbn in *; try discriminate.
-    - now inversion Ha; inversion Hb.
-    - now apply IH. }
-  rewrite (Hc _ _ _ _ q (rt, rc) x (Hc _ _ _ _ q rt rc H1 H2) H3). reflexivity.
+  assert (Hq : q < length (p_q_trace P)) by (apply nth_error_Some; rewrite H1; discriminate).
+  assert (Hs : nth_error (seq 0 (length (p_q_trace P))) q = Some q).
+  { rewrite (nth_error_nth' _ 0) by (now rewrite seq_length). now rewrite seq_nth. }
+  rewrite (nth_error_combine _ _ q q (rt, rc, x) Hs
+             (nth_error_combine _ _ q (rt, rc) x (nth_error_combine _ _ q rt rc H1 H2) H3)).
+  reflexivity.
 Qed.
 
 (* ------------------------------------------------------------------ the out-of-domain check
@@ -168,14 +249,21 @@ Proof.
 Qed.
 
 Theorem accept_gives_polynomial_relation E A C P (Ns Hs : list (list F)) :
-  verify_model O eval_trans E A C P = Accept ->
+  verify_model O eval_trans eval_aux_trans E A C P = Accept ->
   0 < air_n A -> NoDup (domain O (air_g A) (air_n A)) -> fpow (air_g A) (air_n A) = one ->
   ~ In (c_z C) (trans_exempt O (air_g A) (air_n A) (air_k A)) ->
   eval_trans (p_ood_cur P) (p_ood_next P) (periodic_at O A (c_z C)) = map (fun p => peval p (c_z C)) Ns ->
   p_ood_evals P = map (fun h => peval h (c_z C)) Hs ->
   peval (combine_cols (air_n A) 0 Hs) (c_z C) =
-  fdiv O (peval (lincomb O (cc_trans C) Ns) (c_z C)) (peval (trans_divisor_poly O (air_g A) (air_n A) (air_k A)) (c_z C))
-  +f eval_groups O (air_g A) (air_groups A) (cc_bnd C) (p_ood_cur P) (c_z C).
+  fdiv O (peval (lincomb O (firstn (air_nt_main A) (cc_trans C)) Ns) (c_z C) +f
+          match p_aux P with
+          | None => zero
+          | Some ax => dot O (skipn (air_nt_main A) (cc_trans C))
+                         (eval_aux_trans (p_ood_cur P) (p_ood_next P) (ax_cur ax) (ax_next ax)
+                                         (periodic_at O A (c_z C)) (c_aux_rands C))
+          end)
+         (peval (trans_divisor_poly O (air_g A) (air_n A) (air_k A)) (c_z C))
+  +f eval_boundary_part O A C P.
 Proof.
   intros Hacc Hn Hnd Hg Hz Hfr Hev.
   destruct (verify_accept_implies E A C P Hacc) as [_ [_ [Hood _]]].
@@ -183,7 +271,8 @@ Proof.
   rewrite Hev, ood_reduce_is_evaluation in Hood. rewrite <- Hood.
   rewrite Hfr, dot_peval_lincomb.
   rewrite (SoundnessEnforce.trans_divisor_eval_spec O L (air_g A) (air_n A) Hnd (air_k A) (c_z C) Hn Hg Hz).
-  reflexivity.
+  destruct (p_aux P) as [ax|]; [reflexivity|].
+  f_equal. f_equal. ring.
 Qed.
 
 (* ------------------------------------------------------------------ the random linear combination (ALI)
